@@ -1555,15 +1555,23 @@ mod e2e_prost {
                     }
                     let rec = Rec2::default();
                     let rrec = h_router::Rec::default();
-                    let mut routes = Routes::default();
-                    for g in &regs {
-                        routes = match g {
-                            Reg::Fx(0) => routes.add_service(fx_default::http_echo_service_server::HttpEchoServiceServer::new(rec.clone())),
-                            Reg::Fx(_) => routes.add_service(fx_opts::http_echo_service_server::HttpEchoServiceServer::new(rec.clone())),
-                            Reg::Router(k) => e2e::add(routes, *k, &rrec),
-                        };
-                    }
-                    let res = catch(std::panic::AssertUnwindSafe(|| call(routes, v, j)));
+                    // registering may panic (two generated servers that advertise the same NAME are a
+                    // route conflict in axum): that is a verdict about the generated code, not a crash
+                    let built = catch(std::panic::AssertUnwindSafe(|| {
+                        let mut routes = Routes::default();
+                        for g in &regs {
+                            routes = match g {
+                                Reg::Fx(0) => routes.add_service(fx_default::http_echo_service_server::HttpEchoServiceServer::new(rec.clone())),
+                                Reg::Fx(_) => routes.add_service(fx_opts::http_echo_service_server::HttpEchoServiceServer::new(rec.clone())),
+                                Reg::Router(k) => e2e::add(routes, *k, &rrec),
+                            };
+                        }
+                        routes
+                    }));
+                    let res = match built {
+                        Ok(routes) => catch(std::panic::AssertUnwindSafe(|| call(routes, v, j))),
+                        Err(p) => Err(format!("registering the generated servers: {}", p)),
+                    };
                     let mut hits = rec.hits.lock().unwrap().clone();
                     hits.extend(rrec.hits.lock().unwrap().clone());
                     let (want_route, want_shape) = ROUTE[j];
